@@ -114,6 +114,399 @@ def fold_agreement(ck, prog, report, announcer="iswfc", emitter="_towfc_s_chk"):
     return out
 
 
+def _strip_ext(fn, o):
+    while o.get("k") == "v" and fn.defs.get(o["id"], {}).get("op") in ("zext",):
+        o = fn.defs[o["id"]]["ops"][0]
+    return o
+
+
+def _index_shape(fn, o, param):
+    """(shift, mask|None) when o is  (param >> shift) [& mask]  (through zext), else None"""
+    o = _strip_ext(fn, o)
+    if o.get("k") != "v":
+        return None
+    if o["id"] == param:
+        return (0, None)
+    d = fn.defs.get(o["id"])
+    if d is None:
+        return None
+    if d["op"] == "lshr" and d["ops"][1].get("k") == "c":
+        a = _strip_ext(fn, d["ops"][0])
+        return (d["ops"][1]["v"], None) if a.get("k") == "v" and a["id"] == param else None
+    if d["op"] == "and" and d["ops"][1].get("k") == "c":
+        sh = _index_shape(fn, d["ops"][0], param)
+        return (sh[0], d["ops"][1]["v"]) if sh and sh[1] is None else None
+    return None
+
+
+def _global_of(o):
+    if o.get("k") == "g":
+        return o["name"]
+    if o.get("k") == "ce" and o.get("ops"):
+        return _global_of(o["ops"][0])
+    return None
+
+
+def radix_chain(fn):
+    """the multi-level pointer-table walk of fn: (root global, param id, [(shift, mask)], cell load instruction) or None"""
+    gmap = fn.mod["gmap"]
+    for p in fn.j["params"]:
+        if not p["ty"].startswith("i"):
+            continue
+        for g0 in fn.insts():
+            if g0["op"] != "getelementptr" or len(g0.get("terms", ())) != 1:
+                continue
+            root = _global_of(g0["base"])
+            if root is None or not gmap.get(root, {}).get("ptrs"):
+                continue
+            sh = _index_shape(fn, g0["terms"][0]["v"], p["id"])
+            if sh is None:
+                continue
+            shapes, gep, cell = [sh], g0, None
+            while True:
+                ld = next((i for i in fn.insts() if i["op"] == "load" and i["ops"][0].get("id") == gep["id"]), None)
+                if ld is None:
+                    break
+                cell = ld
+                if not ld["ty"].endswith("*"):
+                    break
+                nxt = None
+                for g in fn.insts():
+                    if g["op"] == "getelementptr" and g["base"].get("id") == ld["id"] and len(g.get("terms", ())) == 1:
+                        sh = _index_shape(fn, g["terms"][0]["v"], p["id"])
+                        if sh is not None:
+                            nxt = (g, sh)
+                if nxt is None:
+                    break
+                gep = nxt[0]
+                shapes.append(nxt[1])
+            if cell is not None and len(shapes) >= 2:
+                return root, p["id"], shapes, cell
+    return None
+
+
+def layout_agreement(ck, fn, report, min_cells=1):
+    """clause: the reader of a multi-level code-point table and the table agree on the layout of every list.
+    The composition lists exist in two layouts (16-bit and 32-bit pairs); which one the reader walks is selected by comparing the code
+    point with a constant.  Decided, for every code point that has a list: the element size with which the reader walks the list (taken
+    from the loop that is reachable for that code point -- interval-set reachability over the comparisons with constants) equals the
+    element size of the list object stored in the table; every list is reachable; every list is strictly ascending in its key and ends
+    in the zero sentinel (the reader stops at the first larger key); the searched value is not truncated before the key comparison
+    unless the comparison is reachable only for values that fit."""
+    out = {}
+    ch = radix_chain(fn)
+    if ch is None:
+        ck.fail_broken("layout agreement: no multi-level pointer-table walk found in %s" % fn.name); return out
+    root, param, shapes, cell = ch
+    gmap = fn.mod["gmap"]
+    if not cell["ty"].endswith("*"):
+        ck.fail_broken("layout agreement: the table walk of %s ends in a value, not in a list pointer" % fn.name); return out
+    # the index expressions must tile the code point: level k uses bits [shift_k, shift_{k-1})
+    for k, (sh, mask) in enumerate(shapes):
+        want = None if k == 0 else (1 << (shapes[k - 1][0] - sh)) - 1
+        if mask != want or (k == len(shapes) - 1 and sh != 0):
+            ck.fail_broken("layout agreement: index expressions of %s do not tile the code point (%s)" % (fn.name, shapes)); return out
+    # pointers derived from the cell
+    der = {cell["id"]}
+    changed = True
+    while changed:
+        changed = False
+        for i in fn.insts():
+            if "id" not in i or i["id"] in der or not i.get("ty", "").endswith("*"):
+                continue
+            src = []
+            if i["op"] == "getelementptr" and not i.get("terms"):
+                src = [i["base"]]
+            elif i["op"] == "bitcast":
+                src = [i["ops"][0]]
+            elif i["op"] == "phi":
+                src = [x["v"] for x in i["incoming"]]
+            if src and any(o.get("id") in der for o in src):
+                der.add(i["id"]); changed = True
+    readers = []          # (block, element size walked, load)
+    for i in fn.insts():
+        if i["op"] == "load" and i["ops"][0].get("id") in der and i["ty"].startswith("i"):
+            g = fn.defs.get(i["ops"][0]["id"])
+            if g is None or g["op"] != "getelementptr":
+                ck.fail_broken("layout agreement: list element of %s read without a field address (%s)" % (fn.name, fn.loc(i))); return out
+            readers.append((i["_bb"], g["src_elem_size"], i))
+    if not readers:
+        ck.fail_broken("layout agreement: %s never reads a list element" % fn.name); return out
+    R = intervals.reach(fn, param)
+    # the table
+    cells = []
+
+    def walk(name, level, prefix):
+        g = gmap.get(name)
+        if g is None or not g.get("ptrs"):
+            ck.fail_broken("layout agreement: %s is not an exported pointer table" % name); return
+        for idx, tgt in enumerate(g["ptrs"]):
+            if tgt is None:
+                continue
+            cp = prefix | (idx << shapes[level][0])
+            if level + 1 < len(shapes):
+                walk(tgt, level + 1, cp)
+            else:
+                cells.append((cp, tgt))
+    walk(root, 0, 0)
+    by_layout = {}
+    n_bad = 0
+    for (cp, name) in cells:
+        g = gmap.get(name, {})
+        es = g.get("elem_size")
+        by_layout[es] = by_layout.get(es, 0) + 1
+        walked = sorted({e for (bb, e, i) in readers if intervals.contains(R[bb], cp)})
+        if not walked:
+            n_bad += 1
+            if n_bad <= 6:
+                report("C17:list-unreachable:%s:%X" % (fn.name, cp), "L-reader-layout-equals-table-layout", "%s:%s" % (fn.file, fn.line),
+                       "%s: the list %s of U+%04X is stored in %s but no list-walking code is reachable for that code point" % (fn.name, name, cp, root))
+        elif walked != [es]:
+            n_bad += 1
+            if n_bad <= 6:
+                i = next(i for (bb, e, i) in readers if e != es and intervals.contains(R[bb], cp))
+                report("C17:list-layout-disagrees:%s:%X" % (fn.name, cp), "L-reader-layout-equals-table-layout", fn.loc(i),
+                       "%s walks the list of U+%04X in steps of %s bytes, but %s is an array of %s-byte elements: the pairs are misread" % (fn.name, cp, "/".join(map(str, walked)), name, es))
+        rows = g.get("table")
+        if not rows:
+            ck.fail_broken("layout agreement: list %s has no exported rows" % name); continue
+        keys = [r[0] for r in rows[:-1]]
+        if rows[-1][0] != 0 or any(k == 0 for k in keys):
+            report("C17:list-unterminated:%s" % name, "L-reader-layout-equals-table-layout", "%s:%s" % (g.get("file"), g.get("line")), "list %s does not end in its only zero sentinel" % name)
+        if any(a >= b for a, b in zip(keys, keys[1:])):
+            report("C17:list-unsorted:%s" % name, "L-reader-layout-equals-table-layout", "%s:%s" % (g.get("file"), g.get("line")),
+                   "list %s is not strictly ascending in its key: %s stops at the first larger key" % (name, fn.name))
+    if len(cells) < min_cells:
+        ck.fail_broken("layout agreement: only %d lists found in %s (< %d)" % (len(cells), root, min_cells))
+    # lossless key comparison
+    keyloads = {i["id"]: (bb, i) for (bb, e, i) in readers}
+    n_cmp = 0
+    for i in fn.insts():
+        if i["op"] != "icmp" or i["pred"] != "eq":
+            continue
+        sides = [_strip_ext(fn, o) for o in i["ops"]]
+        if not any(o.get("id") in keyloads for o in sides):
+            continue
+        n_cmp += 1
+        for o in sides:
+            d = fn.defs.get(o.get("id")) if o.get("k") == "v" else None
+            if d is not None and d["op"] == "trunc":
+                srcv = _strip_ext(fn, d["ops"][0])
+                if srcv.get("k") == "v" and srcv["id"] in fn.params:
+                    w = d["bits"]
+                    Rp = intervals.reach(fn, srcv["id"])[i["_bb"]]
+                    if any(h > (1 << w) - 1 for (l, h) in Rp):
+                        report("C17:key-truncated:%s:%s" % (fn.name, fn.params[srcv["id"]]["name"]), "K-key-comparison-lossless", fn.loc(i),
+                               "%s compares a %d-bit list key with %s truncated to %d bits, reachable for values above 0x%X: U+%X matches the key 0x%X"
+                               % (fn.name, w, fn.params[srcv["id"]]["name"], w, (1 << w) - 1, (1 << w) + 0x300, 0x300))
+    out["_lists"] = {cp: [tuple(r) for r in gmap.get(name, {}).get("table", [])[:-1]] for (cp, name) in cells}
+    out.update(function=fn.name, root=root, levels=shapes, lists=len(cells), lists_by_element_size={str(k): v for k, v in by_layout.items()},
+               reader_blocks=sorted({(bb, e) for (bb, e, i) in readers}), key_comparisons=n_cmp,
+               reach={bb: R[bb][:4] for (bb, e, i) in readers})
+    return out
+
+
+class _NoValue(Exception):
+    pass
+
+
+def _ceval(fn, o, env, gmap):
+    """value-set propagation, one value at a time: the value of an integer operand (unsigned, modulo its width) or (global, byte offset)
+    of a pointer operand when the SSA values in env are the given constants; table contents are constants of the program"""
+    if o.get("k") == "c":
+        return o["v"] & ((1 << o.get("bits", 64)) - 1)
+    if o.get("k") in ("g", "ce"):
+        n = _global_of(o)
+        if n is None:
+            raise _NoValue("constant expression")
+        return (n, 0)
+    if o.get("k") != "v":
+        raise _NoValue("operand %s" % o)
+    v = o["id"]
+    if v in env:
+        return env[v]
+    d = fn.defs.get(v)
+    if d is None:
+        raise _NoValue("%s is not a constant of the table walk" % v)
+    op = d["op"]
+    bits = d.get("bits", 64)
+    M = (1 << bits) - 1
+
+    def sgn(x, b):
+        return x - (1 << b) if x >> (b - 1) else x
+    if op in ("add", "sub", "mul", "and", "or", "xor", "shl", "lshr", "ashr"):
+        a, b = _ceval(fn, d["ops"][0], env, gmap), _ceval(fn, d["ops"][1], env, gmap)
+        r = {"add": lambda: a + b, "sub": lambda: a - b, "mul": lambda: a * b, "and": lambda: a & b, "or": lambda: a | b, "xor": lambda: a ^ b,
+             "shl": lambda: a << b if b < bits else 0, "lshr": lambda: a >> b if b < bits else 0, "ashr": lambda: sgn(a, bits) >> b if b < bits else 0}[op]()
+        r = r & M
+    elif op == "zext":
+        r = _ceval(fn, d["ops"][0], env, gmap)
+    elif op == "sext":
+        sb = fn.defs.get(d["ops"][0].get("id"), {}).get("bits") or int(d["ops"][0].get("ty", "i32")[1:])
+        r = sgn(_ceval(fn, d["ops"][0], env, gmap), sb) & M
+    elif op == "trunc":
+        r = _ceval(fn, d["ops"][0], env, gmap) & M
+    elif op == "bitcast":
+        r = _ceval(fn, d["ops"][0], env, gmap)
+    elif op == "getelementptr":
+        g, off = _ceval(fn, d["base"], env, gmap)
+        off += d.get("coff", 0)
+        for t in d.get("terms", ()):
+            x = _ceval(fn, t["v"], env, gmap)
+            tb = int(t["v"].get("ty", "i64")[1:]) if t["v"].get("k") == "v" else 64
+            off += t["stride"] * sgn(x, tb)
+        r = (g, off)
+    elif op == "load" and d["ty"].endswith("*"):
+        g, off = _ceval(fn, d["ops"][0], env, gmap)
+        gl = gmap.get(g, {})
+        if not gl.get("ptrs") or off % 8 or not 0 <= off // 8 < len(gl["ptrs"]) + (gl.get("nelem", 0) - len(gl["ptrs"]) if gl.get("nelem") else 0):
+            raise _NoValue("pointer load at %s+%d outside the table" % (g, off))
+        k = off // 8
+        tgt = gl["ptrs"][k] if k < len(gl["ptrs"]) else None
+        if tgt is None:
+            raise _NoValue("null entry %s[%d]" % (g, k))
+        r = (tgt, 0)
+    else:
+        raise _NoValue("%s (%s)" % (v, op))
+    env[v] = r
+    return r
+
+
+def decomp_agreement(ck, fn, report, min_entries=1):
+    """clause: every value stored in the indirect decomposition tables decodes, with the reader's own arithmetic, to one whole row of an
+    existing value table.  The plane/row tables store packed (length, index) values; the reader unpacks them with shifts and masks and
+    copies `length` elements from value_table[length-1] + index*length.  For every distinct stored value the reader's address and size
+    arithmetic is constant-folded (nothing is executed: the table contents are constants of the program): the copied range must be exactly
+    one row of the value table it lands in, and the length returned must be the row's width."""
+    out = {}
+    ch = radix_chain(fn)
+    if ch is None:
+        ck.fail_broken("decomposition agreement: no multi-level table walk found in %s" % fn.name); return out
+    root, param, shapes, vi = ch
+    gmap = fn.mod["gmap"]
+    if vi["ty"].endswith("*"):
+        ck.fail_broken("decomposition agreement: the table walk of %s ends in a pointer" % fn.name); return out
+    for k, (sh, mask) in enumerate(shapes):
+        want = None if k == 0 else (1 << (shapes[k - 1][0] - sh)) - 1
+        if mask != want or (k == len(shapes) - 1 and sh != 0):
+            ck.fail_broken("decomposition agreement: index expressions of %s do not tile the code point (%s)" % (fn.name, shapes)); return out
+    values = {}          # stored value -> first code point
+    by_cp = {}           # code point -> stored value
+
+    def walk(name, level, prefix):
+        g = gmap.get(name)
+        if g is None:
+            ck.fail_broken("decomposition agreement: %s not found" % name); return
+        if level + 1 < len(shapes):
+            if not g.get("ptrs"):
+                ck.fail_broken("decomposition agreement: %s is not an exported pointer table" % name); return
+            for idx, tgt in enumerate(g["ptrs"]):
+                if tgt is not None:
+                    walk(tgt, level + 1, prefix | (idx << shapes[level][0]))
+        else:
+            if not g.get("table"):
+                ck.fail_broken("decomposition agreement: %s has no exported rows" % name); return
+            for idx, row in enumerate(g["table"]):
+                if row[0]:
+                    values.setdefault(row[0], prefix | idx)
+                    by_cp[prefix | idx] = row[0]
+    walk(root, 0, 0)
+    R = intervals.reach(fn, vi["id"], 0, (1 << vi["bits"]) - 1)
+    copies = [i for i in fn.insts() if i["op"] == "call" and (i.get("callee") or "").startswith(("llvm.memcpy", "memcpy"))]
+    rets = {bb: o for (o, bb) in return_sites(fn)}
+    n_ok = n_bad = 0
+    rows_hit = {}
+    decoded = {}
+    for v, cp in sorted(values.items()):
+        sites = [c for c in copies if intervals.contains(R[c["_bb"]], v)]
+        if not sites:
+            # another consumer (the exception list search) must be reachable for this value
+            others = [b["id"] for b in fn.j["blocks"] if intervals.contains(R[b["id"]], v) and any(i["op"] == "call" and i.get("callee") == "bsearch" for i in b["insts"])]
+            if others:
+                continue
+            n_bad += 1
+            if n_bad <= 6:
+                report("C17:decomp-value-unread:%s:%X" % (fn.name, cp), "D-stored-value-decodes-to-one-row", "%s:%s" % (fn.file, fn.line),
+                       "%s: the value 0x%x stored for U+%04X reaches no code that copies a decomposition" % (fn.name, v, cp))
+            continue
+        for c in sites:
+            env = {vi["id"]: v}
+            try:
+                g, off = _ceval(fn, c["args"][1], env, gmap)
+                n = _ceval(fn, c["args"][2], env, gmap)
+            except _NoValue as e:
+                n_bad += 1
+                if n_bad <= 6:
+                    report("C17:decomp-value-undecodable:%s:%X" % (fn.name, cp), "D-stored-value-decodes-to-one-row", fn.loc(c),
+                           "%s: the value 0x%x stored for U+%04X does not decode to an address inside a value table (%s)" % (fn.name, v, cp, e))
+                continue
+            gl = gmap.get(g, {})
+            es, size = gl.get("elem_size"), gl.get("size")
+            ok = es and size and 0 <= off and off + n <= size and off % es == 0 and n == es
+            ro = rets.get(c["_bb"])
+            if ok and ro is not None:
+                try:
+                    rv = _ceval(fn, ro, env, gmap)
+                    width = fn.defs.get(c["args"][1]["id"], {}).get("ops", [{}])[0]
+                    esz = 4
+                    src = fn.defs.get(c["args"][1]["id"])
+                    if src is not None and src["op"] == "bitcast":
+                        gg = fn.defs.get(src["ops"][0].get("id"))
+                        if gg is not None and gg["op"] == "getelementptr" and gg.get("terms"):
+                            esz = gg["terms"][0]["stride"]
+                    if rv * esz != n:
+                        ok = False
+                except _NoValue:
+                    pass
+            if ok:
+                n_ok += 1
+                rows_hit.setdefault(g, set()).add(off // es)
+                decoded[v] = tuple(gl["table"][off // es]) if gl.get("table") else None
+            else:
+                n_bad += 1
+                if n_bad <= 6:
+                    report("C17:decomp-row-misaddressed:%s:%X" % (fn.name, cp), "D-stored-value-decodes-to-one-row", fn.loc(c),
+                           "%s: for U+%04X (stored value 0x%x) the reader copies %d bytes from %s+%d, which is not one row of that table (%s rows of %s bytes)"
+                           % (fn.name, cp, v, n, g, off, gl.get("nelem"), es))
+    # every row of a value table exists because a code point refers to it (the tables hold the *unique* decompositions): a row no stored
+    # value decodes to is a decomposition that cannot be reached -- e.g. because its packed encoding collides with the reserved value 0
+    for g in sorted(rows_hit):
+        gl = gmap[g]
+        missing = [k for k in range(gl.get("nelem", 0)) if k not in rows_hit[g]]
+        for k in missing[:6]:
+            row = gl["table"][k] if gl.get("table") and k < len(gl["table"]) else None
+            report("C17:decomp-row-unreferenced:%s:%d" % (g, k), "D-every-row-referenced", "%s:%s" % (gl.get("file"), gl.get("line")),
+                   "%s: no value stored in %s decodes to row %d of %s (%s): the code point that should decompose to it is treated as having no decomposition%s"
+                   % (fn.name, root, k, g, " ".join("U+%04X" % x for x in row) if row else "?",
+                      " (its packed encoding (length-1)<<shift | index is 0, the reserved 'no decomposition' value)" if k == 0 and gl.get("elem_size") == min(gmap[x].get("elem_size", 99) for x in rows_hit) else ""))
+    if len(values) < min_entries:
+        ck.fail_broken("decomposition agreement: only %d distinct stored values found under %s (< %d)" % (len(values), root, min_entries))
+    out["_decomp"] = {cp: decoded[v] for cp, v in by_cp.items() if decoded.get(v)}
+    out.update(function=fn.name, root=root, levels=shapes, distinct_values=len(values), code_points=len(by_cp), decoded_to_one_row=n_ok, copy_sites=len(copies),
+               rows_used={g: len(r) for g, r in sorted(rows_hit.items())}, value_tables={g: gmap[g].get("nelem") for g in sorted(rows_hit)})
+    return out
+
+
+def inverse_agreement(lists, decomp, report, where):
+    """clause: the composition lists are the inverse of the canonical decomposition table.  For every pair (starter, next) -> composite in the
+    lists, the full canonical decomposition stored for `composite` equals the full decomposition of `starter` followed by that of `next`
+    (a code point without an entry decomposes to itself).  Necessary for NFC(NFD(x)) == NFC(x) and for normalising twice == once."""
+    full = lambda c: decomp.get(c) or (c,)
+    n = bad = 0
+    for cp, rows in sorted(lists.items()):
+        for (nxt, comp) in rows:
+            n += 1
+            want = tuple(full(cp)) + tuple(full(nxt))
+            got = decomp.get(comp)
+            if got != want:
+                bad += 1
+                if bad <= 6:
+                    report("C17:compose-not-inverse:%X+%X" % (cp, nxt), "I-composition-inverse-of-decomposition", where,
+                           "the composition list of U+%04X maps U+%04X to U+%04X, but the canonical decomposition stored for U+%04X is %s, not %s: composing a decomposed string does not give back the same normal form"
+                           % (cp, nxt, comp, comp, " ".join("U+%04X" % x for x in got) if got else "absent", " ".join("U+%04X" % x for x in want)))
+    return dict(pairs=n, disagreeing=bad)
+
+
 def run(ck):
     mods, info = frontend.load_modules()
     prog = Program(mods)
@@ -174,16 +567,40 @@ def run(ck):
     fold = fold_agreement(ck, prog, ck.report)
     if sum(fold.get("announced", {}).values()) < 100:
         ck.fail_broken("fold agreement: fewer than 100 code points announced as multi-character foldings (%s)" % fold.get("announced"))
+    reader = byname.get("_composite_cp")
+    if reader is None:
+        ck.fail_broken("layout agreement: _composite_cp not found")
+        layout = {}
+    else:
+        layout = layout_agreement(ck, reader, ck.report, min_cells=400)
+    dreader = byname.get("_decomp_canonical_s")
+    if dreader is None:
+        ck.fail_broken("decomposition agreement: _decomp_canonical_s not found")
+        decomp = {}
+    else:
+        decomp = decomp_agreement(ck, dreader, ck.report, min_entries=1500)
+    inverse = {}
+    if layout.get("_lists") and decomp.get("_decomp"):
+        inverse = inverse_agreement(layout["_lists"], decomp["_decomp"], ck.report, "%s:%s" % (reader.file, reader.line))
+        if inverse["pairs"] < 900:
+            ck.fail_broken("inverse agreement: only %d composition pairs found" % inverse["pairs"])
+    else:
+        ck.fail_broken("inverse agreement: composition lists or decomposition map not available")
+    layout.pop("_lists", None); decomp.pop("_decomp", None)
     fx = selftest(ck)
     ob = n_acc + n_sites
     cov = dict(explanation="%d loads from constant tables indexed by (code point >> 16) were found in src/extwchar; %d are bounded inside the function; for the others the bound "
                "cp <= 0x10FFFF is required at every call site of the lookup helper (%d call-site obligations, followed through internal callers' parameters). Fold agreement: iswfc's decision tree, evaluated over the interval partition induced by its own "
                "comparison constants, announces 2 resp. 3 characters for exactly the key columns of towfc_s's 2- resp. 3-character tables; the tables are strictly ascending and "
-               "zero-terminated; a hit stores k+1 elements and returns k." % (n_acc, n_ok, n_sites),
+               "zero-terminated; a hit stores k+1 elements and returns k. Layout agreement: for each of the %s composition lists reachable through the three-level table, the element size "
+               "with which _composite_cp walks it (interval-set reachability over its comparisons of the code point with constants) equals the element size of the stored list; every list is "
+               "reachable, strictly ascending and zero-terminated; the searched code point is not truncated before the key comparison. Decomposition agreement: each of the %s distinct packed (length, index) values stored in the "
+               "three-level canonical table decodes, with _decomp_canonical_s's own shifts, masks and address arithmetic (constant-folded over the table contents), to exactly one row of an existing value table, "
+               "the returned length is that row's width, and every row of the value tables is referenced." % (n_acc, n_ok, n_sites, layout.get("lists"), decomp.get("distinct_values")),
                obligations=ob, discharged=ob - len({r["key"] for r in ck.reports}), table_accesses=n_acc, bounded_in_place=n_ok, call_site_obligations=n_sites,
-               helpers_relying_on_callers={k: sorted(v) for k, v in need.items()}, fold_agreement=fold, fixtures=fx, frontend=info,
+               helpers_relying_on_callers={k: sorted(v) for k, v in need.items()}, fold_agreement=fold, layout_agreement=layout, decomposition_agreement=decomp, inverse_agreement=inverse, fixtures=fx, frontend=info,
                summary="%d plane-table accesses, %d call-site obligations" % (n_acc, n_sites))
-    return ck.finish(cov, ["decided: the table-index clause and the iswfc/towfc_s agreement for multi-character foldings; UAX #15 conformance, idempotence and the single-character (libc towlower/iswupper) cases are not", "32-bit wchar_t configuration"])
+    return ck.finish(cov, ["decided: the table-index clause, the iswfc/towfc_s agreement for multi-character foldings the reader/table layout agreement of the composition lists and the decode agreement of the canonical decomposition tables; UAX #15 conformance, idempotence and the single-character (libc towlower/iswupper) cases are not", "32-bit wchar_t configuration"])
 
 
 def selftest(ck):
@@ -207,4 +624,26 @@ def selftest(ck):
         out[ann] = dict(announced=r.get("announced"), reports=got)
         if sk.broken or not r.get("tables") or bool(got) != want:
             ck.fail_broken("fixture c17.c:%s: fold agreement %s (%s)" % (ann, "did not fire" if want else "fired on conforming code", sk.broken or got))
+    for n, want in (("fx17_lay_good", []), ("fx17_lay_trunc_ok", []), ("fx17_lay_boundary", ["C17:list-layout-disagrees:fx17_lay_boundary:250"]),
+                    ("fx17_lay_trunc", ["C17:key-truncated:fx17_lay_trunc:cp2"]), ("fx17_lay_dropped", ["C17:list-unreachable:fx17_lay_dropped:251"])):
+        got, sk = [], Sink()
+        r = layout_agreement(sk, prog.funcs[n], lambda key, *a, **k: got.append(key), min_cells=4)
+        r.pop("_lists", None)
+        out[n] = dict(lists=r.get("lists"), reports=got)
+        if sk.broken or sorted(got) != want:
+            ck.fail_broken("fixture c17.c:%s: layout agreement reported %s, expected %s (%s)" % (n, got, want, sk.broken))
+    for name, dec, want in (("inverse_good", {0xc0: (0x41, 0x300), 0x1ea6: (0x41, 0x302, 0x300), 0xc2: (0x41, 0x302)}, 0), ("inverse_bad", {0xc0: (0x41, 0x301), 0x1ea6: (0x41, 0x302, 0x300), 0xc2: (0x41, 0x302)}, 1)):
+        got = []
+        r = inverse_agreement({0x41: [(0x300, 0xc0), (0x302, 0xc2)], 0xc2: [(0x300, 0x1ea6)]}, dec, lambda key, *a, **k: got.append(key), "fixture")
+        out[name] = dict(r, reports=got)
+        if len(got) != want or r["pairs"] != 3:
+            ck.fail_broken("self-test %s: inverse agreement reported %s" % (name, got))
+    for n, want in (("fx17_dec_good", []), ("fx17_dec_shift", ["C17:decomp-row-misaddressed", "C17:decomp-value-undecodable"]), ("fx17_dec_stride", ["C17:decomp-row-misaddressed", "C17:decomp-row-unreferenced"]),
+                    ("fx17_dec_zero", ["C17:decomp-row-unreferenced"])):
+        got, sk = [], Sink()
+        r = decomp_agreement(sk, prog.funcs[n], lambda key, *a, **k: got.append(key), min_entries=3)
+        r.pop("_decomp", None)
+        out[n] = dict(values=r.get("distinct_values"), reports=got)
+        if sk.broken or sorted({":".join(k.split(":")[:2]) for k in got}) != want:
+            ck.fail_broken("fixture c17.c:%s: decomposition agreement reported %s, expected %s (%s)" % (n, got, want, sk.broken))
     return out
